@@ -1,5 +1,5 @@
 (* The shape (statement digests in control-flow order) of the functions of bumble/controller.py and
-   bumble/link.py that Model/CtrlProc.v is a reading of, as they were when the model was written
+   bumble/link.py that Model/CtrlProc.v and Model/CisProc.v are readings of, as they were when the model was written
    and validated against them by differential execution (campaign C2).  Regenerated from the
    current source into Gen/C03ProcShape.v on every run and proved equal in Props/C03.v: an edit to
    a condition, a constant, the order of the calls or the branch they are on changes a digest.
@@ -47,6 +47,15 @@ Definition expected : list (string * list ptree) := [
   ("Controller.send_advertising_pdu"%string, (PS 3058158049) :: [(PIf 1284397119 [(PS 3453449536)] [])]);
   ("Controller.send_hci_packet"%string, (PS 1639615858) :: [(PIf 3037057587 [(PS 1184607430)] [])]);
   ("Controller._send_hci_command_status"%string, (PS 3103188712) :: [(PS 1587421334)]);
+  ("Controller.on_hci_le_set_cig_parameters_command"%string, (PS 2402299113) :: [(PS 2515417795); (PLoop 2075866318 [(PIf 2340006474 [(PS 3946392072)] [])]); (PS 1851013277); (PLoop 3193358567 [(PS 2042269045); (PS 1286519869); (PS 1681878824)]); (PS 2850006035)]);
+  ("Controller.on_hci_le_create_cis_command"%string, (PS 1826601118) :: [(PIf 176557349 [(PS 576774822); (PS 3319162886)] []); (PLoop 1104326435 [(PIf 3377583173 [(PS 1019427279); (PS 2812165903)] []); (PIf 1264124967 [(PS 1019427279); (PS 2812165903)] []); (PS 326853591); (PS 238877210)]); (PS 231281228)]);
+  ("Controller.on_hci_le_remove_cig_command"%string, (PS 349169595) :: [(PS 826811812); (PS 2515417795); (PLoop 2075866318 [(PIf 2340006474 [(PS 1997805808); (PS 2885627521)] [])]); (PS 2734699125)]);
+  ("Controller.on_hci_le_accept_cis_request_command"%string, (PS 3059977613) :: [(PIf 176557349 [(PS 576774822); (PS 3319162886)] []); (PIf 475108041 [(PS 1019427279); (PS 2812165903)] []); (PS 2274699245); (PS 929382460); (PS 231281228); (PS 3319162886)]);
+  ("Controller.on_le_cis_request"%string, (PS 4001399034) :: [(PS 1749187562); (PS 422973231); (PS 1693434547)]);
+  ("Controller.on_le_cis_established"%string, (PS 1017559166) :: [(PS 3361722469); (PS 2310210888)]);
+  ("Controller.on_le_cis_disconnected"%string, (PS 1017559166) :: [(PIf 76135082 [(PS 3474290008)] [(PIf 1211747893 [(PS 2347449019)] [(PS 2812165903)])]); (PS 4079018677)]);
+  ("Controller.find_iso_link_by_handle"%string, (PS 1599499571) :: [(PS 3259636244)]);
+  ("Controller.find_classic_sco_link_by_handle"%string, (PS 1599499571) :: [(PLoop 2925049617 [(PIf 1638619623 [(PS 2411298657)] [])]); (PS 3319162886)]);
   ("Connection.send_ll_control_pdu"%string, (PS 740511160) :: [(PIf 1284397119 [(PS 773483521)] [])]);
   ("LocalLink.find_le_controller"%string, (PS 2057973421) :: [(PLoop 4069347948 [(PLoop 365032208 [(PIf 3936050657 [(PS 3938216605)] [])])]); (PS 3319162886)]);
   ("LocalLink.find_classic_controller"%string, (PS 2057973421) :: [(PLoop 4069347948 [(PIf 192598265 [(PS 3938216605)] [])]); (PS 3319162886)]);
